@@ -232,6 +232,28 @@ def c09_unit(task):
         real_batches = None
         out["problems"].append(f"batches-unreadable:{type(e).__name__}")
     out["batches"] = real_batches
+    sends_sp, _ = G.comm_ops(spec)
+    pairs_by_tag: dict = {}
+    for s_ in sends_sp:
+        pairs_by_tag.setdefault(s_["tag"], set()).add((s_["rank"], s_["dst"]))
+    outs_kind = [G._strip(rk, o) for rk in spec["ranks"] for _, o in rk["outputs"]]
+    out["dist"] = {
+        "batches>=3": int(real_batches is not None and len(real_batches) >= 3),
+        "some-part-without-sends": int(any(not p["sends"] for ps in psers for p in ps["parts"])),
+        "some-part-without-recvs": int(any(not p["recvs"] for ps in psers for p in ps["parts"])),
+        "rank-with>=3-parts": int(any(len(ps["parts"]) >= 3 for ps in psers)),
+        "bystander-rank": int(any(not any(p["sends"] or p["recvs"] for p in ps["parts"]) for ps in psers)
+                              and out["stats"]["ncomm"] > 0),
+        "output-is-a-receive": int("recv" in outs_kind),
+        "output-is-an-input": int("input" in outs_kind),
+        "zero-size-arrays": int(spec["n"] == 0),
+        "0-d-arrays": int(bool(spec.get("scalar"))),
+        "same-tag-between-different-rank-pairs": int(any(len(v) > 1 for v in pairs_by_tag.values())),
+        "non-integer-tags": int(any(t[0] != "i" for t in spec["tags"])),
+        "mixed-tag-types": int(len({t[0] for t in spec["tags"]}) > 1),
+        "non-int64-dtypes": int(any(nd.get("dtype", "int64") != "int64" for rk in spec["ranks"] for nd in rk["nodes"])),
+        "high-level-node-kinds": int(any(nd["op"] == "kind" for rk in spec["ranks"] for nd in rk["nodes"])),
+    }
     if real_batches is not None:
         for r in range(n):
             want = parts_of(r, [set(b) for b in real_batches])
